@@ -497,38 +497,37 @@ namespace detail {
 
     namespace detail
     {
+        // position of the first occurrence of op which is not enclosed in parentheses, npos if there is none
+        constexpr std::size_t find_top_level(std::string_view s, std::string_view op)
+        {
+            int depth = 0;
+            for (std::size_t i = 0; i < s.size(); ++i)
+            {
+                if (s[i] == '(')
+                {
+                    ++depth;
+                }
+                else if (s[i] == ')')
+                {
+                    --depth;
+                }
+                else if (depth == 0 && s.substr(i, op.size()) == op)
+                {
+                    return i;
+                }
+            }
+            return std::string_view::npos;
+        }
+        // C++ precedence: ||, then &&, then !, parentheses group. Operators inside parentheses are not seen
+        // by the enclosing level.
         template <class Func>
         constexpr auto parse_guard_simple(Func guard_func)
         {
-            constexpr auto and_pos = guard_func().find("&&");
-            constexpr auto or_pos = guard_func().find("||");
-            constexpr auto not_pos = guard_func().find("!");
-            constexpr auto parens_begin_pos = guard_func().find("(");
-            constexpr auto parens_end_pos = guard_func().find(")");
-            constexpr auto last_and_pos = guard_func().find("&&", parens_end_pos);
-            constexpr auto last_or_pos = guard_func().find("||", parens_end_pos);
+            constexpr auto or_pos = boost::msm::front::puml::detail::find_top_level(guard_func(), "||");
+            constexpr auto and_pos = boost::msm::front::puml::detail::find_top_level(guard_func(), "&&");
 
-            // check for operator of the lesser precedence after end parens
-            if constexpr (parens_begin_pos != std::string::npos && parens_end_pos != std::string::npos &&
-                last_or_pos != std::string::npos && parens_end_pos < last_or_pos)
-            {
-                return boost::msm::front::Or_<
-                    decltype(boost::msm::front::puml::detail::parse_guard_simple(
-                        [=]() {return boost::msm::front::puml::detail::cleanup_token(guard_func().substr(0, last_or_pos)); })),
-                    decltype(boost::msm::front::puml::detail::parse_guard_simple(
-                        [=]() {return boost::msm::front::puml::detail::cleanup_token(guard_func().substr(last_or_pos + 2)); })) > {};
-            }
-            else if constexpr (parens_begin_pos != std::string::npos && parens_end_pos != std::string::npos &&
-                last_and_pos != std::string::npos && parens_end_pos < last_and_pos)
-            {
-                return boost::msm::front::And_<
-                    decltype(boost::msm::front::puml::detail::parse_guard_simple(
-                        [=]() {return boost::msm::front::puml::detail::cleanup_token(guard_func().substr(0, last_and_pos)); })),
-                    decltype(boost::msm::front::puml::detail::parse_guard_simple(
-                        [=]() {return boost::msm::front::puml::detail::cleanup_token(guard_func().substr(last_and_pos + 2)); })) > {};
-            }
-            else if  constexpr (parens_begin_pos != std::string::npos && parens_end_pos != std::string::npos &&
-                or_pos != std::string::npos && or_pos < and_pos && or_pos < parens_begin_pos)
+            // break at the operator of the lesser precedence
+            if constexpr (or_pos != std::string_view::npos)
             {
                 return boost::msm::front::Or_<
                     decltype(boost::msm::front::puml::detail::parse_guard_simple(
@@ -536,8 +535,7 @@ namespace detail {
                     decltype(boost::msm::front::puml::detail::parse_guard_simple(
                         [=]() {return boost::msm::front::puml::detail::cleanup_token(guard_func().substr(or_pos + 2)); })) > {};
             }
-            else if  constexpr (parens_begin_pos != std::string::npos && parens_end_pos != std::string::npos &&
-                and_pos != std::string::npos && and_pos < or_pos && and_pos < parens_begin_pos)
+            else if constexpr (and_pos != std::string_view::npos)
             {
                 return boost::msm::front::And_<
                     decltype(boost::msm::front::puml::detail::parse_guard_simple(
@@ -545,42 +543,19 @@ namespace detail {
                     decltype(boost::msm::front::puml::detail::parse_guard_simple(
                         [=]() {return boost::msm::front::puml::detail::cleanup_token(guard_func().substr(and_pos + 2)); })) > {};
             }
-            else if  constexpr (parens_begin_pos != std::string::npos && parens_end_pos != std::string::npos &&
-                not_pos != std::string::npos && not_pos < parens_begin_pos)
+            else if constexpr (guard_func().starts_with("!"))
             {
                 return boost::msm::front::Not_<decltype(boost::msm::front::puml::detail::parse_guard_simple(
-                    [=]() {return boost::msm::front::puml::detail::cleanup_token(guard_func().substr(not_pos + 1)); })) > {};
+                    [=]() {return boost::msm::front::puml::detail::cleanup_token(guard_func().substr(1)); })) > {};
             }
-            else if constexpr (parens_begin_pos != std::string::npos && parens_end_pos != std::string::npos)
+            else if constexpr (guard_func().starts_with("(") && guard_func().ends_with(")"))
             {
                 return boost::msm::front::puml::detail::parse_guard_simple(
-                    [=]() {return boost::msm::front::puml::detail::cleanup_token(guard_func().substr(parens_begin_pos + 1, parens_end_pos - (parens_begin_pos + 1))); });
-            }
-            else if constexpr (and_pos == std::string::npos && or_pos == std::string::npos && not_pos == std::string::npos)
-            {
-                return typename boost::msm::front::puml::convert_to_msm_names < Guard <by_name(guard_func())> >::type{};
-            }
-            // at least one operator, break at pos of the lesser precedence
-            else if constexpr (or_pos != std::string::npos)
-            {
-                return boost::msm::front::Or_<
-                    decltype(boost::msm::front::puml::detail::parse_guard_simple(
-                        [=]() {return boost::msm::front::puml::detail::cleanup_token(guard_func().substr(0, or_pos)); })),
-                    decltype(boost::msm::front::puml::detail::parse_guard_simple(
-                        [=]() {return boost::msm::front::puml::detail::cleanup_token(guard_func().substr(or_pos + 2)); })) > {};
-            }
-            else if constexpr (and_pos != std::string::npos)
-            {
-                return boost::msm::front::And_<
-                    decltype(boost::msm::front::puml::detail::parse_guard_simple(
-                        [=]() {return boost::msm::front::puml::detail::cleanup_token(guard_func().substr(0, and_pos)); })),
-                    decltype(boost::msm::front::puml::detail::parse_guard_simple(
-                        [=]() {return boost::msm::front::puml::detail::cleanup_token(guard_func().substr(and_pos + 2)); })) > {};
+                    [=]() {return boost::msm::front::puml::detail::cleanup_token(guard_func().substr(1, guard_func().size() - 2)); });
             }
             else
             {
-                return boost::msm::front::Not_<decltype(boost::msm::front::puml::detail::parse_guard_simple(
-                    [=]() {return boost::msm::front::puml::detail::cleanup_token(guard_func().substr(not_pos + 1)); })) > {};
+                return typename boost::msm::front::puml::convert_to_msm_names < Guard <by_name(guard_func())> >::type{};
             }
         }
         template <class Func>
